@@ -52,7 +52,7 @@ def pos_frame(rng, addr, kind, a, o, oe):
     return gen.with_parity(f[:11])
 
 
-def commb_frame(rng, addr, kind):
+def commb_frame(rng, addr, kind, only=None):
     df = rng.choice([20, 21])
     d = [(df << 3) | rng.randrange(8)] + [rng.randrange(256) for _ in range(3)]
     if kind == "bds50":
@@ -73,6 +73,24 @@ def commb_frame(rng, addr, kind):
             bits = bits[:35] + "0" * 10 + bits[45:]
         mb = int(bits, 2)
         d += [(mb >> (8 * (6 - k))) & 255 for k in range(7)]
+    elif kind in ("bds60p", "bds50p"):
+        # partial availability: every field of the register independently present or flagged unavailable (status, sign and value
+        # bits zero), as a transponder with a failed data source reports it.  Keys of the aircraft record that only some replies
+        # create (t50 / t60, the vertical rates ...) then exist in every combination
+        lay = ([(1, 10, (700, 1024)), (0, 10, (120, 400)), (0, 10, (75, 220)), (1, 9, (0, 90)), (1, 9, (0, 90))] if kind == "bds60p" else
+               [(1, 9, (0, 200)), (1, 10, (0, 1024)), (0, 10, (100, 250)), (1, 9, (0, 50)), (0, 10, (100, 250))])
+        mb = 0
+        for i, (sign, w, (lo, hi)) in enumerate(lay):
+            on = rng.random() < 0.55 if only is None else i in only
+            mb = (mb << 1) | (1 if on else 0)
+            val = rng.randrange(lo, hi) if on else 0
+            if sign:
+                sg = rng.randrange(2) if on else 0
+                mb = (mb << 1) | sg
+                if sg and hi <= (1 << w) // 2:
+                    val = (1 << w) - max(1, val)            # two's complement: a small magnitude below zero
+            mb = (mb << w) | val
+        d += [(mb >> (8 * (6 - k))) & 255 for k in range(7)]
     elif kind == "zero":
         d += [0] * 7
     else:
@@ -80,7 +98,7 @@ def commb_frame(rng, addr, kind):
     return gen.with_parity(d, addr)
 
 
-def vel_frame(rng, addr, va, vo, a):
+def vel_frame(rng, addr, va, vo, a, vr=None):
     """genuine TC19 subtype-1 ground-speed squitter for a velocity of (va, vo) BAM24 per half second at latitude a"""
     import math
     kn = 2 * va * 360.0 / (1 << 24) * 60 * 3600                                      # kt northwards
@@ -92,7 +110,7 @@ def vel_frame(rng, addr, va, vo, a):
     f = gen.set_bits(f, 47, 56, min(1023, int(round(abs(ke))) + 1))
     f = gen.set_bits(f, 57, 57, 1 if kn < 0 else 0)
     f = gen.set_bits(f, 58, 67, min(1023, int(round(abs(kn))) + 1))
-    f = gen.set_bits(f, 70, 78, rng.randrange(1, 200))
+    f = gen.set_bits(f, 70, 78, vr if vr is not None else 0 if rng.random() < 0.2 else rng.randrange(1, 200))      # 0: vertical rate not available
     return gen.with_parity(f[:11])
 
 
@@ -100,14 +118,23 @@ def long_gap(ctx, rng, k):
     """a flight as a receiver at the edge of coverage sees it: positions and ground speed while slow, then only identification /
     status squitters (every < 60 s, so the aircraft stays listed) for 15 to 45 minutes while it accelerates and flies on, then
     positions again.  The reference from before the gap is hundreds of miles stale; nothing but its age says so."""
+    import math
+    polar = k % 16 == 13
     a = rng.randrange(-2800000, 2800000)
     o = rng.randrange(-(1 << 23), 1 << 23)
     addr = rng.randrange(1, 1 << 24)
     ang = rng.random() * 6.283185
-    import math
     slow, fast = rng.randrange(4, 15), rng.randrange(48, 64)          # BAM24 per half second: 40-140 kt, 450-590 kt
     v1 = (int(slow * math.cos(ang)), int(slow * math.sin(ang)))
     v2 = (int(fast * math.cos(ang)), int(fast * math.sin(ang)))
+    if polar:
+        # the same flight along a parallel at 80-86 degrees: the meridians are close together there, so the position-less
+        # stretch takes the aircraft through 40-180 degrees of longitude; it then lands next to the receiver (surface pair)
+        a = rng.choice([-1, 1]) * rng.randrange(3730000, 4008000)
+        stretch = 1.0 / math.cos(math.radians(abs(a) * 360.0 / (1 << 24)))
+        ew = rng.choice([-1, 1])
+        v1 = (0, int(ew * slow * stretch))
+        v2 = (rng.choice([-1, 0, 1]), int(ew * fast * stretch))
     rx = [1, cprpy_rx(a), cprpy_rx(o)] if rng.random() < 0.85 else [0, 0, 0]
     now = 2000 + rng.randrange(1000)
     script = []
@@ -125,17 +152,27 @@ def long_gap(ctx, rng, k):
         if step % 2:
             msgs.append({"f": vel_frame(rng, addr, v1[0], v1[1], a), "t": now, "g": 0, "a": 0, "o": 0})
         call(msgs)
+    lim = 4050000 if polar else 3600000
     for step in range(rng.randint(18, 48)):
         dt = rng.choice([40, 50, 55, 58]) * 2
         now += dt
-        a, o = max(-3600000, min(3600000, a + v2[0] * dt)), wrap(o + v2[1] * dt)
+        a, o = max(-lim, min(lim, a + v2[0] * dt)), wrap(o + v2[1] * dt)
         call([{"f": es_frame(rng, addr, rng.choice([1, 2, 3, 4, 28, 29, 31, 23, 0])), "t": now, "g": 0, "a": 0, "o": 0}])
+    kind = "air"
+    if polar:
+        # on the ground beside the receiver (which therefore sits at the landing place, not where the flight was first heard)
+        kind = "surf"
+        v2 = (0, int(v2[1] / 9))
+        rx = [1, cprpy_rx(a) + rng.randrange(-200, 200), cprpy_rx(o) + rng.randrange(-200, 200)]
     for step in range(rng.randint(4, 7)):
         dt = rng.choice([1, 2, 3])
         now += dt
-        a, o = max(-3600000, min(3600000, a + v2[0] * dt)), wrap(o + v2[1] * dt)
+        a, o = max(-lim, min(lim, a + v2[0] * dt)), wrap(o + v2[1] * dt)
         oe = 1 - oe
-        call([{"f": pos_frame(rng, addr, "air", a, o, oe), "t": now, "g": 1, "a": a, "o": o}])
+        f = pos_frame(rng, addr, kind, a, o, oe)
+        if kind == "surf":
+            f = gen.with_parity(gen.set_bits(gen.set_bits(f, 38, 44, rng.randint(30, 100)), 45, 45, 1)[:11])
+        call([{"f": f, "t": now, "g": 1, "a": a, "o": o}])
     return {"fn": "tracker.run", "rx": rx, "script": script, "lower": rng.choice([0, 0, 1, 2])}
 
 
@@ -186,9 +223,53 @@ def slow_pairs(ctx, rng, k):
     return {"fn": "tracker.run", "rx": rx, "script": script, "lower": rng.choice([0, 0, 1, 2])}
 
 
+def key_orders(ctx, rng, k):
+    """one aircraft, heard without a break, sending the *minimal* form of every kind of message in a random order: Comm-B replies
+    with exactly one field of BDS 5,0 / 6,0 available (either sign), complete and empty ones, velocity squitters with and without
+    a vertical rate, identification / status / position squitters.  The aircraft record is a dict whose keys are created by some
+    message kinds and read by others; over the histories every ordered pair (creator before reader, reader before creator) occurs"""
+    a = rng.randrange(-2800000, 2800000)
+    o = rng.randrange(-(1 << 23), 1 << 23)
+    addr = rng.randrange(1, 1 << 24)
+    va, vo = rng.randrange(-40, 41), rng.randrange(-40, 41)
+    rx = [1, cprpy_rx(a), cprpy_rx(o)] if rng.random() < 0.5 else [0, 0, 0]
+    now = 2000 + rng.randrange(1000)
+    cat = []
+    for reg in ("bds60p", "bds50p"):
+        for i in range(5):
+            cat += [("c", reg, [i])] * 2                   # drawn twice: both signs turn up
+        cat += [("c", reg, [3, 4]), ("c", reg, [0, 1, 2]), ("c", reg, [0, 1, 2, 3, 4])]
+    cat += [("c", "zero", None), ("c", "rand", None), ("c", "bds50", None), ("c", "bds60", None)]
+    cat += [("v", 0), ("v", 0), ("v", None), ("v", 100)]
+    cat += [("e", tc) for tc in (1, 4, 19, 19, 28, 29, 31, 31, 0)]
+    cat += [("p", 0), ("p", 1), ("p", 0), ("p", 1)]
+    rng.shuffle(cat)
+    script = []
+    oe = rng.randrange(2)
+    script.append({"tnow": now, "adsb": [{"f": es_frame(rng, addr, 4), "t": now, "g": 0, "a": 0, "o": 0}], "commb": []})
+    for item in cat[:rng.randint(10, 22)]:
+        dt = rng.choice([1, 1, 2, 3, 8])
+        now += dt
+        a, o = a + va * dt, wrap(o + vo * dt)
+        adsb, commb = [], []
+        if item[0] == "c":
+            commb.append({"f": commb_frame(rng, addr, item[1], only=item[2]), "t": now, "g": 0, "a": 0, "o": 0})
+        elif item[0] == "v":
+            adsb.append({"f": vel_frame(rng, addr, va, vo, a, vr=item[1]), "t": now, "g": 0, "a": 0, "o": 0})
+        elif item[0] == "e":
+            adsb.append({"f": es_frame(rng, addr, item[1], df=rng.choice([17, 18])), "t": now, "g": 0, "a": 0, "o": 0})
+        else:
+            oe = item[1]
+            adsb.append({"f": pos_frame(rng, addr, "air", a, o, oe), "t": now, "g": 1, "a": a, "o": o})
+        script.append({"tnow": now, "adsb": adsb, "commb": commb})
+    return {"fn": "tracker.run", "rx": rx, "script": script, "lower": rng.choice([0, 0, 1, 2])}
+
+
 def history(ctx, rng, k):
     if k % 8 == 5:
         return long_gap(ctx, rng, k)
+    if k % 8 == 3:
+        return key_orders(ctx, rng, k)
     if k % 8 == 1:
         return slow_pairs(ctx, rng, k)
     place = PLACES[k % len(PLACES)] if k % 3 else (rng.randrange(-3600000, 3600000), rng.randrange(-(1 << 23), 1 << 23))
@@ -235,9 +316,13 @@ def history(ctx, rng, k):
                 adsb.append({"f": pos_frame(rng, c["addr"], kind, c["a"], c["o"], c["oe"]), "t": now, "g": 1, "a": c["a"], "o": c["o"]})
             elif u < 0.75:
                 tc = rng.choice([1, 2, 3, 4, 19, 19, 28, 29, 31, 0, 23, 24, 27, 30, 20, 21, 22])
-                adsb.append({"f": es_frame(rng, c["addr"], tc, df=rng.choice([17, 17, 18])), "t": now, "g": 0, "a": 0, "o": 0})
+                if tc == 19 and rng.random() < 0.5:
+                    # a genuine ground-speed squitter (one in five without a vertical rate) instead of random TC19 content
+                    adsb.append({"f": vel_frame(rng, c["addr"], c["va"], c["vo"], c["a"]), "t": now, "g": 0, "a": 0, "o": 0})
+                else:
+                    adsb.append({"f": es_frame(rng, c["addr"], tc, df=rng.choice([17, 17, 18])), "t": now, "g": 0, "a": 0, "o": 0})
             elif u < 0.93:
-                commb.append({"f": commb_frame(rng, c["addr"], rng.choice(["bds50", "bds60", "rand", "zero"])), "t": now, "g": 0, "a": 0, "o": 0})
+                commb.append({"f": commb_frame(rng, c["addr"], rng.choice(["bds50", "bds60", "rand", "zero", "bds60p", "bds50p", "bds60p"])), "t": now, "g": 0, "a": 0, "o": 0})
             else:
                 commb.append({"f": commb_frame(rng, unknown, rng.choice(["bds50", "rand"])), "t": now, "g": 0, "a": 0, "o": 0})
         # take-off / landing near the receiver, holding a mode for more than 10 s
